@@ -423,7 +423,7 @@ class AggregateBase(UnitsManaged, Saveable, OpenSystem):
         try:
             im = self.mnames[name]
             mn = self.monomers[im]
-            mn.add_mode(mode)
+            mn.add_Mode(mode)
         except:
             raise Exception()
 
@@ -431,7 +431,7 @@ class AggregateBase(UnitsManaged, Saveable, OpenSystem):
         try:
             im = self.mnames[name]
             mn = self.monomers[im]
-            return mn.get_mode(N)
+            return mn.get_Mode(N)
         except:
             raise Exception("Mode not found")
 
